@@ -148,7 +148,7 @@ type SubFilter struct {
 	Options byte   `json:"options"` // v5: qos | nl<<2 | rap<<3 | rh<<4 ; v3: requested qos
 }
 
-func (f SubFilter) QoS() byte { return f.Options & 3 }
+func (f SubFilter) QoS() byte     { return f.Options & 3 }
 func (f SubFilter) NoLocal() bool { return f.Options&4 != 0 }
 func (f SubFilter) RAP() bool     { return f.Options&8 != 0 }
 func (f SubFilter) RH() byte      { return f.Options >> 4 & 3 }
